@@ -347,6 +347,48 @@ def fam_timeout(seed, i):
     return sc
 
 
+def fam_tmodrop(seed, i):
+    """C05 x C11: a slow invocation runs into the handler timeout on an actor whose last strong handle goes away before
+    the timeout fires, with accepted messages still queued behind it: under the carry-on policy the backlog is still
+    handled before the actor stops; weak handles taken earlier stay inert from the last drop on."""
+    rng = random.Random(f"tmodrop-{seed}-{i}")
+    sc = base("tmodrop", seed, i, rng, horizon=60)
+    sc["idle_only"] = rng.random() < 0.7
+    t = rng.choice([2, 3, 3, 4])
+    cfg = {"cap": rng.choice([-1, -1, 2, 3]), "tmo": t, "failto": rng.random() < 0.15, "pscr": rng.choice([[], [], [Y], [eff("sleep", rng.randint(1, 5))]]),
+           "sscr": [[Y] * rng.choice([0, 1])], "owning": False, "strat": rng.choice(["restart", "restart", "recreate", "none"])}
+    main = [{"op": "spawn", "a": "a1", "nh": "h0", "cfg": cfg, "entry": rng.choice(["builder", "builder:" + str(rng.randrange(4))])},
+            {"op": "clone", "h": "h0", "nh": "h", "to": "c1"}]
+    two = rng.random() < 0.4
+    if two:
+        main.append({"op": rng.choice(["sender", "clone", "caller"]), "h": "h0", "nh": "g", "to": "c2"})
+    weak = rng.random() < 0.5
+    if weak:
+        main.append({"op": rng.choice(["downgrade", "weak_sender"]), "h": "h0", "nh": "w", "to": "c1"})
+    main.append({"op": "drop", "h": "h0"})
+    sc["clients"]["main"] = main
+    slow = [eff("sleep", t + rng.randint(-1, 3))] + [Y] * rng.choice([0, 1])
+    quick = [[], [], [Y], [eff("sleep", 1)], [eff("sleep", t + 1)]]
+    c1 = [{"op": "send", "h": "h", "scr": slow}]
+    for _ in range(rng.randint(1, 3)):
+        c1.append({"op": "send", "h": "h", "scr": rng.choice(quick)})
+    c1 += [{"op": "yield"}] * rng.randint(0, 2)
+    c1.append({"op": "drop", "h": "h"})
+    if weak:
+        c1.append({"op": "upgrade", "h": "w", "nh": "u0", "to": "c1"})
+        if rng.random() < 0.5:
+            c1 += [{"op": "sleep", "d": rng.randint(1, t + 2)}, {"op": "upgrade", "h": "w", "nh": "u1", "to": "c1"}]
+    sc["clients"]["c1"] = c1
+    if two:
+        c2 = [{"op": "yield"}] * rng.randint(0, 2)
+        kind2 = main[2]["op"]
+        for _ in range(rng.randint(0, 2)):
+            c2.append({"op": "call" if kind2 == "caller" else "send", "h": "g", "scr": rng.choice(quick)})
+        c2.append({"op": "drop", "h": "g"})
+        sc["clients"]["c2"] = c2
+    return sc
+
+
 def fam_timers(seed, i):
     """C10 (and the timer clause of C07): timers of mixed kinds, termination at any time by any cause."""
     rng = random.Random(f"timers-{seed}-{i}")
@@ -970,4 +1012,4 @@ def fam_mix(seed, i):
     return sc
 
 
-FAMILIES = {"mix": fam_mix, "core": fam_core, "awaiters": fam_awaiters, "life": fam_life, "fail": fam_fail, "restart": fam_restart, "timeout": fam_timeout, "timers": fam_timers, "tree": fam_tree, "registry": fam_registry, "stream": fam_stream, "broker": fam_broker}
+FAMILIES = {"mix": fam_mix, "core": fam_core, "awaiters": fam_awaiters, "life": fam_life, "fail": fam_fail, "restart": fam_restart, "timeout": fam_timeout, "tmodrop": fam_tmodrop, "timers": fam_timers, "tree": fam_tree, "registry": fam_registry, "stream": fam_stream, "broker": fam_broker}
